@@ -322,6 +322,17 @@ func build(kind string, entry []byte, list []kv) (script []byte, status string) 
 			err = fmt.Errorf("kind")
 		}
 		if err == nil {
+			// Two start-up scripts are built before the first one is read (two sandboxes of one pipeline
+			// overlap between building the script and the shell reading it): a builder whose result
+			// shares storage with the next build delivers the other sandbox's values.
+			decoy := envs.NewEnvironments()
+			decoy.Set("DECOY_ONE", "decoy-value-1-$(echo decoy)")
+			decoy.Set("DECOY_TWO", strings.Repeat("decoy-two ", 40))
+			if kind == "container" {
+				dcmd.InitSequence(decoy)
+			} else {
+				sshsb.VerifInitSequence("decoy-entrypoint", decoy)
+			}
 			script, err = io.ReadAll(rd)
 		}
 	})
